@@ -209,19 +209,90 @@ def run_case(ctx, res, case, lines, post):
         res.hit('loop-with-downstream-component')
 
 
+def run_two_loops(ctx, res, seed):
+    """two SEQUENTIAL feedback loops: (a0 <-> a1) feeds (b0 <-> b1) feeds a plain component d. Oracle only: exact 2x2 linear
+    solves; a sample that fails in loop A is NaN in A, B and d; one that fails only in loop B keeps its loop-A values and is
+    NaN in B and d; sub-batches give the same values"""
+    rng = random.Random(seed)
+    N = rng.randint(4, 9)
+    tol, max_iter, mem = rng.choice([1e-8, 1e-10]), rng.choice([4, 6, 40]), rng.choice([1, 2, 5])
+    ra = np.array([rng.choice([0.0, 0.1, 0.6, 0.97, 1.3]) for _ in range(N)])
+    rb = np.array([rng.choice([0.0, 0.2, 0.7, 1.4]) for _ in range(N)])
+    info = {'two_loops': seed, 'tol': tol, 'max_iter': max_iter, 'mem': mem, 'ra': ra.tolist(), 'rb': rb.tolist()}
+    V = lambda n, **k: Variable(n, **k)   # noqa: E731
+    sa, sb = V('ra', domain=(0.0, 2.0)), V('rb', domain=(0.0, 2.0))
+    a0, a1, b0, b1 = (V(n, domain=(-3.0, 3.0)) for n in ('a0', 'a1', 'b0', 'b1'))
+
+    def build2():
+        return System(
+            Component(lambda inputs: {'a0': inputs['ra'] * inputs['a1'] + 1.0}, inputs=[sa, a1], outputs=[a0], name='A0', vectorized=True),
+            Component(lambda inputs: {'a1': -0.8 * inputs['ra'] * inputs['a0'] + 0.5}, inputs=[sa, a0], outputs=[a1], name='A1', vectorized=True),
+            Component(lambda inputs: {'b0': inputs['rb'] * inputs['b1'] + 0.5 * inputs['a0'] - 0.25}, inputs=[sb, b1, a0], outputs=[b0], name='B0', vectorized=True),
+            Component(lambda inputs: {'b1': 0.9 * inputs['rb'] * inputs['b0'] + 0.1}, inputs=[sb, b0], outputs=[b1], name='B1', vectorized=True),
+            Component(lambda inputs: {'d': inputs['b0'] + 2.0 * inputs['a1']}, inputs=[b0, a1], outputs=[V('d')], name='D', vectorized=True),
+            name='twoloops')
+    kw = dict(max_fpi_iter=max_iter, fpi_tol=tol, anderson_mem=mem, normalized_inputs=False)
+    x = {'ra': ra, 'rb': rb}
+    y = {k: np.asarray(v, dtype=float).reshape(N) for k, v in build2().predict(dict(x), **kw).items()}
+    for s_ in range(N):
+        okA = not (np.isnan(y['a0'][s_]) or np.isnan(y['a1'][s_]))
+        okB = not (np.isnan(y['b0'][s_]) or np.isnan(y['b1'][s_]))
+        if np.isnan(y['a0'][s_]) != np.isnan(y['a1'][s_]) or np.isnan(y['b0'][s_]) != np.isnan(y['b1'][s_]):
+            res.failures.append({'kind': 'loop-outputs-partly-NaN', 'input': {**info, 'sample': s_},
+                                 'observed': {k: float(v[s_]) for k, v in y.items()}})
+        if not okA and (okB or not np.isnan(y['d'][s_])):
+            res.failures.append({'kind': 'non-converged-upstream-loop-did-not-propagate-NaN', 'input': {**info, 'sample': s_},
+                                 'observed': {k: float(v[s_]) for k, v in y.items()}})
+        if okA and not okB and not np.isnan(y['d'][s_]):
+            res.failures.append({'kind': 'non-converged-sample-returned-non-NaN-output', 'signature': 'none',
+                                 'input': {**info, 'sample': s_, 'output': 'd'}, 'observed': float(y['d'][s_])})
+        if okA:
+            A = np.array([[1.0, -ra[s_]], [0.8 * ra[s_], 1.0]])
+            ea = np.linalg.solve(A, np.array([1.0, 0.5]))
+            La = max(1.0, ra[s_])
+            if ra[s_] < 1 and not np.max(np.abs(ea - [y['a0'][s_], y['a1'][s_]])) <= tol * La / (1 - ra[s_]) * 1.01 + 1e-12:
+                res.failures.append({'kind': 'affine-loop-differs-from-linear-solve', 'input': {**info, 'sample': s_, 'loop': 'A'},
+                                     'observed': [float(y['a0'][s_]), float(y['a1'][s_])], 'expected': ea.tolist()})
+            if okB:
+                Fb0 = rb[s_] * y['b1'][s_] + 0.5 * y['a0'][s_] - 0.25
+                Fb1 = 0.9 * rb[s_] * y['b0'][s_] + 0.1
+                if not max(abs(Fb0 - y['b0'][s_]), abs(Fb1 - y['b1'][s_])) <= max(1.0, rb[s_]) * tol * 1.0001 + 1e-13:
+                    res.failures.append({'kind': 'returned-sample-is-not-a-fixed-point-within-tolerance',
+                                         'input': {**info, 'sample': s_, 'loop': 'B'}})
+                if not abs(y['d'][s_] - (y['b0'][s_] + 2.0 * y['a1'][s_])) <= 1e-12 * max(1.0, abs(y['d'][s_])):
+                    res.failures.append({'kind': 'downstream-value-not-computed-from-returned-loop-values',
+                                         'input': {**info, 'sample': s_}})
+        res.hit('two-loops-sample-' + ('ok' if okA and okB else ('B-failed' if okA else 'A-failed')))
+    sub = sorted(rng.sample(range(N), rng.randint(1, N - 1)))
+    y2 = {k: np.asarray(v, dtype=float).reshape(len(sub)) for k, v in
+          build2().predict({'ra': ra[sub], 'rb': rb[sub]}, **kw).items()}
+    for k in y:
+        if not np.allclose(y[k][sub], y2[k], rtol=1e-12, atol=1e-14, equal_nan=True):
+            res.failures.append({'kind': 'sample-result-depends-on-the-batch', 'input': {**info, 'sub_batch': sub, 'output': k},
+                                 'observed': y2[k].tolist(), 'expected': y[k][sub].tolist()})
+    res.case(('two-loops', seed), True, info)
+
+
 def run(ctx: core.Ctx, only=None) -> core.Result:
     res = core.Result()
     res.rule = ('feedback loops of 2-4 surrogate-less instrumented components (affine and sin couplings, unit-norm coupling '
                 'matrix scaled per sample by a contraction factor 0.1-1.5 so that convergent, slow and divergent samples '
                 'coexist), optional non-coupling outputs and a downstream component, tolerances 1e-4..1e-12, iteration limits '
-                '1..60, Anderson memory 1..10, batches 1..10. non-trivial = batch containing both converged and non-converged '
+                '1..60, Anderson memory 1..10, batches 1..10; plus two SEQUENTIAL affine loops feeding a plain component (NaN '
+                'propagation from the first loop through the second, exact linear solves, batch independence). non-trivial = batch containing both converged and non-converged '
                 'samples.')
     lines, post = [], []
     cases = [o.get('input', o) for o in only] if only is not None else core.corpus_cases('C06') + \
         [gen_case(ctx.rng) for _ in range(ctx.scale(40, 600))]
-    keys = ('n', 'kind', 'M', 'b', 'tol', 'max_iter', 'mem', 'extra_out', 'downstream', 'batch', 'seed')
+    keys = ('n', 'kind', 'M', 'b', 'tol', 'max_iter', 'mem', 'extra_out', 'downstream', 'batch', 'seed', 'mixed')
+    if only is None:
+        cases = cases + [{'two_loops': ctx.rng.randrange(10 ** 6)} for _ in range(ctx.scale(6, 60))]
     for case in cases:
-        case = {k: case[k] for k in keys}
+        if 'two_loops' in case:
+            with core.guarded(res, 'scenario-raised', case):
+                run_two_loops(ctx, res, case['two_loops'])
+            continue
+        case = {k: case.get(k, False) for k in keys}
         with core.guarded(res, 'scenario-raised', case):
             run_case(ctx, res, case, lines, post)
     out = core.try_driver(lines, res, 'Amisc.fpiRun')
